@@ -8,9 +8,12 @@ correspond  (a) EXHAUSTIVE: every argv of `Wrap.enumerate` for every builder of 
                 `Cli::try_parse_from` (vharness `clap`) vs `Cli.accepts` (rmodel `clap`), canonical summaries equal
             (b) extraction: the same option objects executed by the real TypeScript method bodies under node
             (c) a random / mutated argv stream over the grammar's vocabulary, to validate the clap model itself
-oracle      on the real parser's answer alone: accepted AND the summary has the meaning the pushes intend; every
-            failing case must fall under a listed finding by its specific (wrapper, builder, field) clause and behave
-            as the model predicts, else VIOLATION with the argv as replay
+oracle      on the real parser's answer alone (no model, no grammar translator; the summary is read with the real
+            `Command`'s own argument table, harness op `clapargs`): the argv is accepted AND every field of the parse
+            result is the one the builder's option object calls for -- positionals exactly the given terms / paths,
+            each flag true iff the builder pushed it, each option exactly the given values, everything else at its
+            default.  Every failing case must fall under a listed finding by its specific (wrapper, builder, field)
+            clause and behave as the model predicts, else VIOLATION with the argv as replay
 """
 import json
 import os
@@ -263,43 +266,86 @@ def is_set(v):
     return v == "true" or (v.isdigit() and int(v) > 0)
 
 
-def means(grammar, line, sub, exps):
-    """does the real parser's summary carry the intended meaning?  -> (bool, reason)"""
-    psub, kv = parse_summary(line)
-    if psub != sub:
-        return False, f"subcommand {psub!r} instead of {sub!r}"
-    cmd = next((c for c in grammar["subs"] if c["name"] == psub), None)
-    if cmd is None:
-        return False, "unknown subcommand in summary"
-    own = cmd["args"]
-    glob = [a for a in grammar["top"] if a["global"] and not any(o["id"] == a["id"] for o in own)]
+def real_table():
+    """argument table of the REAL clap `Command` (harness op `clapargs`), independent of translate/cli_grammar.py"""
+    line = common.run_impl(["clapargs"])[0]
+    return json.loads(line)
 
-    def key_of(pred):
-        for a in own:
-            if pred(a):
-                return a["id"]
-        for a in glob:
-            if pred(a):
-                return "g." + a["id"]
-        return None
-    pos = [a for a in own if a["positional"]]
+
+def default_of(a):
+    if a["action"] in ("setTrue", "setFalse"):
+        return "true" if a["defaults"] == ["true"] else "false"
+    if a["action"] == "count":
+        return "0"
+    return ",".join(hexs(d) for d in a["defaults"]) if a["defaults"] else "none"
+
+
+def intended_summary(table, sub, exps):
+    """The complete parse result the builder's option object calls for, as `key -> value` in the notation of the
+    harness summary: every argument of the subcommand and every global at its default, except
+      positional k      = exactly the given terms / paths,
+      a pushed flag     = true (a counter: the number of times it was pushed),
+      a pushed option   = exactly the given values (lists element by element),
+    and nothing else set.  -> (dict, problem or None)"""
+    args = table["subs"].get(sub)
+    if args is None:
+        return None, f"the CLI has no subcommand {sub!r}"
+    want = {}
+    own_ids = {a["id"] for a in args if not a["global"]}
+    for a in args:
+        want[("g." if a["global"] else "") + a["id"]] = default_of(a)
+    for a in table["top"]:
+        if a["id"] not in own_ids:
+            want.setdefault("g." + a["id"], default_of(a))
+
+    def key(a):
+        return ("g." if a["global"] else "") + a["id"]
+    pos = sorted([a for a in args if a["positional"]], key=lambda a: a["index"] or 0)
     for e in exps:
         if e[0] == "pos":
             if e[1] >= len(pos):
-                return False, f"no positional #{e[1]}"
-            got = summary_vals(kv.get(pos[e[1]]["id"], "none"))
-            if got != e[2]:
-                return False, f"positional {pos[e[1]]['id']} = {got!r}, intended {e[2]!r}"
-        elif e[0] in ("flag", "short"):
-            key = key_of((lambda a: a["long"] == e[1] or e[1] in a["aliases"]) if e[0] == "flag"
-                         else (lambda a: a["short"] == e[1]))
-            if key is None or not is_set(kv.get(key, "false")):
-                return False, f"{e[1]} not set"
+                return None, f"the builder passes a positional #{e[1] + 1} ({e[2]!r}) that `{sub}` does not have"
+            if e[2]:
+                want[key(pos[e[1]])] = ",".join(hexs(x) for x in e[2])
         else:
-            key = key_of(lambda a: a["long"] == e[1] or e[1] in a["aliases"])
-            got = summary_vals(kv.get(key, "none")) if key else None
-            if got != e[2]:
-                return False, f"option {e[1]} = {got!r}, intended {e[2]!r}"
+            a = next((x for x in args if (e[1] in x["longs"] if e[0] != "short" else e[1] in x["shorts"])), None)
+            if a is None:
+                return None, f"the builder pushes {'-' if e[0] == 'short' else '--'}{e[1]}, which `{sub}` does not have"
+            if e[0] == "opt":
+                want[key(a)] = ",".join(hexs(x) for x in e[2]) if e[2] else "none"
+            elif a["action"] == "count":
+                want[key(a)] = str(int(want[key(a)]) + 1)
+            elif a["action"] in ("setTrue", "setFalse"):
+                want[key(a)] = "true" if a["action"] == "setTrue" else "false"
+            else:
+                return None, f"the builder pushes --{e[1]} without a value, but it takes one"
+    return want, None
+
+
+def means(table, line, sub, exps):
+    """INTENDED-MEANING ORACLE.  `line` is what the real parser made of the argv; `exps` what the builder's own
+    option object asked for.  Every field of the parse result must be the intended one.  -> (bool, reason)"""
+    psub, kv = parse_summary(line)
+    if psub != sub:
+        return False, f"subcommand {psub!r} instead of {sub!r}"
+    want, prob = intended_summary(table, sub, exps)
+    if want is None:
+        return False, prob
+    own_ids = {a["id"] for a in table["subs"][sub] if not a["global"]}
+    kinds = {("g." if a["global"] else "") + a["id"]: a["action"] for a in table["subs"][sub]}
+    kinds.update({"g." + a["id"]: a["action"] for a in table["top"]})
+    diffs = []
+    for k in sorted(set(kv) | set(want)):
+        if k.startswith("g.") and k[2:] in own_ids:
+            continue                      # a global shadowed by the subcommand's own argument of the same id
+        if kv.get(k) != want.get(k):
+            def show(v, k=k):
+                if v is None or v in ("none", "true", "false") or kinds.get(k) not in ("set", "append"):
+                    return v
+                return [unhex_s(x) for x in v.split(",")]
+            diffs.append(f"{k} = {show(kv.get(k))!r}, intended {show(want.get(k))!r}")
+    if diffs:
+        return False, "; ".join(diffs[:4])
     return True, ""
 
 
@@ -468,8 +514,12 @@ def run(ctx):
     from translate import cli_grammar, wrappers
     grammar = ir = None
     try:
-        cli_grammar.run()
         grammar = cli_grammar.extract()
+        cli_grammar.write(grammar)
+        if grammar["problems"]:
+            # the grammar is still generated (unmodelled attributes are carried as data); the tie is weaker
+            ctx.broke("translator", "translate/cli_grammar.py",
+                      "clap features the model does not cover: " + "; ".join(grammar["problems"]))
     except Exception as ex:                                   # noqa: BLE001 - any failure is a broken tie
         ctx.broke("translator", "translate/cli_grammar.py", f"{type(ex).__name__}: {ex}")
     try:
@@ -501,9 +551,11 @@ def run(ctx):
     if not ok:
         ctx.broke("build", "cargo", msg)
         return
+    # the intended-meaning oracle reads the real parser's answers with the real parser's own argument table
+    table = real_table()
     if grammar is None:
-        # stale grammar for the random stream / meaning oracle is useless; acceptance oracle still runs
-        ctx.notes.append("grammar translator failed: meaning oracle and random stream skipped, acceptance oracle only")
+        ctx.notes.append("grammar translator failed: random stream skipped; acceptance and intended-meaning oracle run "
+                         "on the real parser as usual")
 
     # 4a corpus first -------------------------------------------------------------------------------
     corpus = []
@@ -570,9 +622,9 @@ def run(ctx):
         good, reason = impl.startswith("ok "), ""
         if not good:
             reason = impl
-        elif grammar is not None and b is not None:
+        elif b is not None:
             sub, exps = expectations(ev_groups(b, vals))
-            good, reason = means(grammar, impl, sub, exps)
+            good, reason = means(table, impl, sub, exps)
             if not good:
                 reason = "accepted with another meaning: " + reason
         if good:
